@@ -27,7 +27,7 @@ def main():
     except Exception as e:  # fail closed, with the reason in the report
         chk.fail("engine", "rule-layer", detail="rule layer exception (fail closed): %s\n%s"
                  % (e, traceback.format_exc()[-3000:]), kind="ENGINE")
-    rc = chk.finish(level=getattr(mod, "LEVEL", "other"), explanation=getattr(mod, "EXPLANATION", ""))
+    rc = chk.finish(level=getattr(mod, "LEVEL", "other"), explanation=getattr(mod, "EXPLANATION", ""), extra_cov=getattr(chk, "extra_cov", None))
     sys.exit(rc)
 
 
